@@ -12,7 +12,7 @@ DT = {0: torch.float32, 1: torch.float64}
 EPS32 = float(np.finfo(np.float32).eps)
 
 
-def build(path, buf_dt, capture=None):
+def build(path, buf_dt, capture=None, magbias=1e-2):
     """module (or callable) for a dtype path, built with buffers of dtype buf_dt, plus an input maker;
     with `capture` (a list) the modules under test are appended to it and left in the dtype they were built in"""
     from pytorch_wavelets import DWTForward, DWTInverse, DWT1DForward, DWT1DInverse, DTCWTForward, DTCWTInverse, ScatLayer, ScatLayerj2
@@ -64,8 +64,8 @@ def build(path, buf_dt, capture=None):
             return i((yl.to(x.dtype), yh))
         return call, (1, 2, 16, 16), None
     if path == 10:
-        m = conv(ScatLayer()); return (lambda x: m(x)), (1, 2, 12, 14), 1e-2
-    m = conv(ScatLayerj2()); return (lambda x: m(x)), (1, 2, 16, 16), 1e-2
+        m = conv(ScatLayer(magbias=magbias)); return (lambda x: m(x)), (1, 2, 12, 14), magbias
+    m = conv(ScatLayerj2(magbias=magbias)); return (lambda x: m(x)), (1, 2, 16, 16), magbias
 
 
 def flat(o):
@@ -103,35 +103,43 @@ def dtype_cases(ck):
 
 
 def acc_input(path, dyn, xseed, shape):
-    x = np.random.default_rng(xseed).standard_normal(shape) * dyn
-    x[..., 0] *= 1e3            # large dynamic range inside one tensor
+    """three kinds of input, chosen by the seed: large dynamic range inside one tensor, uniform amplitude, and
+    piecewise-flat (exactly zero band-pass coefficients inside the flat regions)"""
+    g = np.random.default_rng(xseed)
+    x = g.standard_normal(shape) * dyn
+    kind = xseed % 3
+    if kind == 0:
+        x[..., 0] *= 1e3
+    elif kind == 2:
+        x = np.broadcast_to(g.standard_normal(shape[:-1] + (1,)) * dyn, shape).copy()
+        x[..., shape[-1] // 2:] = x[..., :1] * 0.5
     return x
 
 
 def iso_job(args):
     """runs inside harness.iso_worker: the float64 result of one path in a process where nothing else has run"""
     torch.set_default_dtype(torch.float64)
-    c64, shape, _ = build(args['path'], torch.float64)
+    c64, shape, _ = build(args['path'], torch.float64, magbias=args.get('magbias', 1e-2))
     x = acc_input(args['path'], args['dyn'], args['xseed'], shape)
     with torch.no_grad():
         return [t.numpy() for t in flat(c64(torch.tensor(x, dtype=torch.float64)))]
 
 
-def oracle_accuracy(ck, path, dyn, xseed=0, iso=None):
+def oracle_accuracy(ck, path, dyn, xseed=0, iso=None, magbias=1e-2):
     """float32 result vs float64 result against eps32 * (gain * max|x| + bias); the float64 result must also be
     the one a process that never saw float32 computes (to 1e-12)"""
     old = torch.get_default_dtype()
     try:
         torch.set_default_dtype(torch.float64)
-        c64, shape, bias = build(path, torch.float64)
+        c64, shape, bias = build(path, torch.float64, magbias=magbias)
         torch.set_default_dtype(torch.float32)
-        c32, _, _ = build(path, torch.float32)
+        c32, _, _ = build(path, torch.float32, magbias=magbias)
     finally:
         torch.set_default_dtype(old)
     x = acc_input(path, dyn, xseed, shape)
     x64 = torch.tensor(x, dtype=torch.float64); x32 = x64.float()
-    desc = 'float32 accuracy path=%d shape=%s dynamic range %g' % (path, tuple(shape), dyn)
-    replay = {'oracle': 'accuracy', 'path': path, 'dyn': dyn, 'xseed': xseed}
+    desc = 'float32 accuracy path=%d shape=%s dynamic range %g%s' % (path, tuple(shape), dyn, '' if path < 10 else ' magbias=%g' % magbias)
+    replay = {'oracle': 'accuracy', 'path': path, 'dyn': dyn, 'xseed': xseed, 'magbias': magbias}
     with torch.no_grad():
         if ck.rng.random() < 0.5:
             y32 = flat(c32(x32)); y64 = flat(c64(x64))
@@ -164,7 +172,7 @@ def oracle_accuracy(ck, path, dyn, xseed=0, iso=None):
     err = max(float((a.double() - b).abs().max()) for a, b in zip(y32, y64))
     if err > bound:
         ck.fail(desc + ': max |y32 - y64| = %.3g exceeds 64*eps32*(gain*max|x|+bias) = %.3g (gain %.3g)' % (err, bound, gain), replay); return 'diff'
-    ck.oracle_ok(('acc', path, dyn), group='float32-accuracy', sample={'what': desc, 'err': err, 'bound': bound, 'gain': gain})
+    ck.oracle_ok(('acc', path, dyn, magbias), group='float32-accuracy', sample={'what': desc, 'err': err, 'bound': bound, 'gain': gain})
     return None
 
 
@@ -278,12 +286,16 @@ def run(ck):
     ck.corr.append(st)
     old = torch.get_default_dtype()
     try:
-        jobs = [(path, dyn, ck.rng.getrandbits(31)) for path in range(12) for dyn in ([1.0, 1e4] if q else [1e-3, 1.0, 1e4, 1e6])]
-        isos = rt.iso_run([{'module': 'harness.props.c16', 'func': 'iso_job', 'args': {'path': p_, 'dyn': d_, 'xseed': s_}} for p_, d_, s_ in jobs])
+        # amplitudes from tiny to huge (the bound is relative to max|x|), and for the scattering layers every admissible kind of
+        # magnitude bias: the default, none at all (magbias = 0) and a large one
+        jobs = [(path, dyn, ck.rng.getrandbits(31), 1e-2) for path in range(12) for dyn in ([1e-5, 1.0, 1e4] if q else [1e-7, 1e-5, 1e-3, 1.0, 1e4, 1e6])]
+        jobs += [(path, dyn, 3 * ck.rng.getrandbits(29) + kind, mb) for path in (10, 11) for mb in (0.0, 1.0) for kind in (0, 1, 2)
+                 for dyn in ([1e-5, 1.0] if q else [1e-7, 1e-5, 1e-3, 1.0, 1e4])]
+        isos = rt.iso_run([{'module': 'harness.props.c16', 'func': 'iso_job', 'args': {'path': p_, 'dyn': d_, 'xseed': s_, 'magbias': mb_}} for p_, d_, s_, mb_ in jobs])
         ck.extra['isolated_process_references'] = {'computed': sum(1 for v in isos if not (isinstance(v, tuple) and v and v[0] == 'error')),
                                                    'worker_errors': [v[1][-160:] for v in isos if isinstance(v, tuple) and v and v[0] == 'error'][:3]}
-        for (path, dyn, xs), iso in zip(jobs, isos):
-            rt.guard(ck, oracle_accuracy, ck, path, dyn, xs, iso)
+        for (path, dyn, xs, mb), iso in zip(jobs, isos):
+            rt.guard(ck, oracle_accuracy, ck, path, dyn, xs, iso, mb)
         for path in range(12):
             rt.guard(ck, oracle_convert, ck, path)
             rt.guard(ck, oracle_convert_history, ck, path)
@@ -300,7 +312,7 @@ def replay(ck, path):
         print('replay file names no failing input: %s' % d.get('broken_obligations'))
         return 1
     if f['oracle'] == 'accuracy':
-        oracle_accuracy(ck, f['path'], f['dyn'])
+        oracle_accuracy(ck, f['path'], f['dyn'], f.get('xseed', 0), None, f.get('magbias', 1e-2))
     elif f['oracle'] == 'convert':
         oracle_convert(ck, f['path'])
     else:
